@@ -167,6 +167,43 @@ func (o *Once) Do(f func()) {
 	}
 }
 
+// Pool replaces sync.Pool: deterministic LIFO reuse (the most adversarial policy for code that keeps using an object
+// after putting it back); package-level pools are emptied between executions.
+type Pool struct {
+	New   func() any
+	items []any
+	vc    sched.VC
+	reg   bool
+}
+
+var allPools []*Pool
+
+func (p *Pool) Get() any {
+	if n := len(p.items); n > 0 {
+		x := p.items[n-1]
+		p.items = p.items[:n-1]
+		if g := s(); !g.Dead() {
+			g.AcquireVC(p.vc)
+		}
+		return x
+	}
+	if p.New != nil {
+		return p.New()
+	}
+	return nil
+}
+
+func (p *Pool) Put(x any) {
+	if !p.reg {
+		p.reg = true
+		allPools = append(allPools, p)
+	}
+	if g := s(); !g.Dead() {
+		g.ReleaseInto(&p.vc)
+	}
+	p.items = append(p.items, x)
+}
+
 // ---- channels ---------------------------------------------------------------------------------
 
 // chanState is the scheduler-side state of one channel; the real channel is only an identity token.
@@ -204,7 +241,13 @@ var chans = map[uintptr]*chanState{}
 var pinned []any // keeps channels alive so that addresses are not reused within an execution
 
 // ResetChannels forgets all channel state (between executions).
-func ResetChannels() { chans = map[uintptr]*chanState{}; pinned = nil }
+func ResetChannels() {
+	chans = map[uintptr]*chanState{}
+	pinned = nil
+	for _, p := range allPools {
+		p.items, p.vc = nil, nil
+	}
+}
 
 func stateOf(ch any) *chanState {
 	v := reflect.ValueOf(ch)
